@@ -412,7 +412,8 @@ def parse_fn_block(lines, qual, opts, lineno, template):
 # --------------------------------------------------------------------------- generator
 
 class Gen:
-    def __init__(self, repo, body_modules=None, fatal_mode="P", twin=False, only_fns=None, cone_modules=None, prop=None):
+    def __init__(self, repo, body_modules=None, fatal_mode="P", twin=False, only_fns=None, cone_modules=None, prop=None, triv=False):
+        self.triv = triv          # audit mode: every body is replaced by a havoc of its &mut parameters and result
         self.repo = repo
         self.body_modules = body_modules   # None = all
         self.fatal_mode = fatal_mode
@@ -748,6 +749,13 @@ class Gen:
             rec["lines"] = [rec["sig_line"], len(self.out)]
             self.fn_records.append(rec)
             return
+        if self.triv:
+            # havoc twin: a clause that still verifies does not constrain the function at all
+            self.emit(havoc_body(sig_text))
+            rec["lines"] = [rec["sig_line"], len(self.out)]
+            rec["body_lines"] = [rec["sig_line"], len(self.out)]
+            self.fn_records.append(rec)
+            return
         # ----- body
         fatal_mode = fd.opts.get("fatal", self.fatal_mode)
         fatal_mode = {"abort": "S", "unreachable": "P"}.get(fatal_mode, fatal_mode)
@@ -1016,6 +1024,54 @@ def widen_fields(text):
         j += 1
     out.extend(t.text for t in toks[close:])
     return "".join(out)
+
+
+def havoc_body(sig):
+    """Body that assigns an arbitrary value to every `&mut` parameter and returns an arbitrary result."""
+    toks = tokenize(sig)
+    sidx = _sig_idx(toks)
+    p = None
+    for n, k in enumerate(sidx):
+        if toks[k].kind == "ident" and toks[k].text == "fn":
+            p = sidx[n + 2]
+            if toks[p].text == "<":
+                p = _next_sig(toks, match_angle(toks, p))
+            break
+    pc = match_close(toks, p)
+    # split parameters at depth-0 commas
+    params, cur, j = [], [], p + 1
+    while j < pc:
+        t = toks[j]
+        if t.kind == "punct" and t.text in rustlex.OPEN:
+            k = match_close(toks, j); cur.extend(toks[j:k + 1]); j = k + 1; continue
+        if t.kind == "punct" and t.text == "<":
+            k = match_angle(toks, j); cur.extend(toks[j:k + 1]); j = k + 1; continue
+        if t.kind == "punct" and t.text == ",":
+            params.append(cur); cur = []
+        else:
+            cur.append(t)
+        j += 1
+    if cur:
+        params.append(cur)
+    stmts = []
+    for pr in params:
+        txt = [t.text for t in pr if t.kind not in ("ws", "comment")]
+        if not txt:
+            continue
+        if txt[:2] == ["&", "mut"] and txt[2:3] == ["self"]:
+            stmts.append("*self = crate::prelude::verif_any();")
+        elif ":" in txt:
+            c = txt.index(":")
+            name = txt[c - 1]
+            ty = txt[c + 1:]
+            if ty[:1] == ["&"] and "mut" in ty[:3] and "[" not in ty[:4]:
+                stmts.append("*%s = crate::prelude::verif_any();" % name)
+    has_ret = "->" in [t.text for t in toks[pc:]]
+    never = has_ret and "!" in [t.text for t in toks[pc:] if t.kind == "punct"]
+    tail = "crate::prelude::verif_any()" if has_ret and not never else ""
+    if never:
+        tail = "crate::prelude::verif_abort()"
+    return "{ " + " ".join(stmts) + " " + tail + " }"
 
 
 def rewrite_signature(sig, name, emit_name, ret, opts):
